@@ -116,6 +116,15 @@ fn big_file(tier: Tier) -> BoxedStrategy<FileSpec> {
     (conf, src).prop_map(|(conf, src)| FileSpec { conf, src }).boxed()
 }
 
+fn huge_file(tier: Tier) -> BoxedStrategy<FileSpec> {
+    let (lo, hi) = tier.pick((60_000u32, 120_000u32), (200_000u32, 500_000u32));
+    let src = (any::<u32>(), 1u32..8, lo..=hi, 0u16..24, any::<u8>(), 4u16..40, 0u8..3)
+        .prop_map(|(start, stride, n, pad, fill, vlen, vkind)| EntrySrc::Counter { start: start / 4, stride, n, pad, fill, vlen, vkind });
+    let conf = (prop_oneof![3 => Just(crate::common::Codec::None), 1 => Just(crate::common::Codec::Snappy), 1 => Just(crate::common::Codec::Lz4)], 0u8..=4, prop_oneof![Just(Some(1024usize)), Just(None)])
+        .prop_map(|(codec, levels, block_size)| WConf { codec, level: 0, block_size, interval: None, levels });
+    (conf, src).prop_map(|(conf, src)| FileSpec { conf, src }).boxed()
+}
+
 impl Prop for C16 {
     type Case = Case;
 
@@ -128,11 +137,13 @@ impl Prop for C16 {
             stage("big-files", (big_file(tier), gen::history(200)).prop_map(|(spec, ops)| Case::History { spec, ops }), tier.pick(800, 12_000)).shrink(100),
             stage("general-files", (gen::file_spec_light(tier), gen::history(120)).prop_map(|(spec, ops)| Case::History { spec, ops }), tier.pick(1600, 20_000)).shrink(200),
             stage("explore", explore_case(tier.pick(12, 20)).prop_map(Case::Explore), tier.pick(48, 1000)).shrink(30),
+            // a few very large files: the bound must not depend on the number of entries
+            stage("huge-files", (huge_file(tier), gen::history(60)).prop_map(|(spec, ops)| Case::History { spec, ops }), tier.pick(16, 64)).shrink(10),
         ]
     }
 
     fn rule(&self) -> String {
-        "case = file (up to 60 000 entries / ~2 000 data blocks of 1 KiB, levels 0..=6, all codecs) x 200-operation history, \
+        "case = file (up to 60 000 entries / ~2 000 data blocks of 1 KiB, levels 0..=6, all codecs; a few files of 60 000..500 000 entries) x 200-operation history, \
          or small deep file x every reachable cursor state x every operation (BFS as in C03). The reader runs over an \
          instrumented source logging every seek target and read range per public call. Oracle: Reader::new reads only \
          inside the trailer; every cursor operation performs <= 2*(levels+2) block loads (a load = an absolute seek, or a \
